@@ -20,6 +20,9 @@ from . import common
 from .common import Result
 
 NCPU = min(16, os.cpu_count() or 4)
+# The workers run under different process-local time zones (TZ): nothing kio does with timestamps may depend on where the process thinks
+# it is (naive datetimes, time.mktime, datetime.fromtimestamp without a zone do).  Half-hour, 45-minute, DST and far-east/west zones.
+PROCESS_TIME_ZONES = ("UTC", "America/St_Johns", "Asia/Kolkata", "Pacific/Chatham", "Europe/Berlin", "America/New_York", "Asia/Kathmandu", "Pacific/Kiritimati")
 
 
 def run(result: Result, target: str, nshards: int | None = None, timeout: float = 3600.0,
@@ -34,13 +37,16 @@ def run(result: Result, target: str, nshards: int | None = None, timeout: float 
     env.update(extra_env or {})
     procs = []
     try:
+        zones_used: dict[str, int] = {}
         for i in range(n):
             out = os.path.join(tmp, f"w{i}.json")
             log = open(os.path.join(tmp, f"w{i}.log"), "wb")
+            tz = PROCESS_TIME_ZONES[(i + result.seed) % len(PROCESS_TIME_ZONES)]
+            zones_used[tz] = zones_used.get(tz, 0) + 1
             p = subprocess.Popen(
                 [sys.executable, "-X", "faulthandler", "-W", "error::ResourceWarning", "-m", "kv.shard",
                  target, result.prop, result.tier, str(i), str(n), out],
-                cwd=str(common.VERIF), env=env, stdout=log, stderr=subprocess.STDOUT,
+                cwd=str(common.VERIF), env=dict(env, TZ=tz), stdout=log, stderr=subprocess.STDOUT,
             )
             procs.append((i, p, out, log))
         deadline = time.time() + timeout
@@ -61,6 +67,7 @@ def run(result: Result, target: str, nshards: int | None = None, timeout: float 
                 continue
             with open(out) as fh:
                 result.merge_wire(json.load(fh))
+        result.coverage["worker_process_time_zones"] = zones_used
     finally:
         for _, p, _, _ in procs:
             if p.poll() is None:
